@@ -120,13 +120,27 @@ def qft_case(ctx, rng):
 
 def rand_vector(rng, nq):
     N = 2 ** nq
-    kind = rng.choice(["complex", "real", "sparse", "sparse", "basis", "negreal", "phases"])
+    kind = rng.choice(["complex", "real", "sparse", "sparse", "basis", "negreal", "phases", "global_phase", "tiny_phase", "pair_phases"])
     if kind == "complex":
         v = np.array([complex(rng.gauss(0, 1), rng.gauss(0, 1)) for _ in range(N)])
     elif kind == "real":
         v = np.array([rng.gauss(0, 1) for _ in range(N)], dtype=complex)
     elif kind == "negreal":
         v = -np.abs(np.array([rng.gauss(0, 1) for _ in range(N)])).astype(complex)
+    elif kind == "global_phase":
+        # a non-negative real vector times ONE overall phase: all relative phases are zero up to rounding (1e-16)
+        v = np.abs(np.array([rng.gauss(0, 1) for _ in range(N)])).astype(complex) * cmath.exp(1j * rng.choice([0.3, 0.7, math.pi / 4, 1.1, 2.5, -0.9]))
+    elif kind == "tiny_phase":
+        # relative phases that are tiny but not zero (1e-13 ... 1e-7)
+        v = np.abs(np.array([rng.gauss(0, 1) for _ in range(N)])).astype(complex)
+        for i in rng.sample(range(N), max(1, N // 2)):
+            v[i] *= cmath.exp(1j * rng.choice([1e-13, 1e-12, 3e-11, 1e-9, 1e-7]) * rng.choice([-1, 1]))
+    elif kind == "pair_phases":
+        # phases that cancel inside (even, odd) pairs or between the halves of the vector
+        a = rng.choice([0.3, 1.2, math.pi / 2])
+        v = np.abs(np.array([rng.gauss(0, 1) for _ in range(N)])).astype(complex)
+        for i in range(N):
+            v[i] *= cmath.exp(1j * a * (1 if (i % 2 == 0) == (rng.random() < 0.9) else -1))
     elif kind == "phases":
         v = np.array([cmath.exp(1j * rng.uniform(0, 2 * math.pi)) for _ in range(N)])
     elif kind == "basis":
